@@ -5,7 +5,7 @@ import AmVerif.Lemmas.Settle
 import AmVerif.Lemmas.StaticMode
 import AmVerif.Model.History
 import AmVerif.Lemmas.World
-import AmVerif.Gen.Tables
+import AmVerif.Gen.TabLock
 /-!
 # C05 — hot-reloading converges: cached values follow the source, transitively
 
